@@ -114,13 +114,20 @@ def tokenMin (s : List Nat) : List Nat → Nat → Nat
     | none => tokenMin s rest m
     | some i => tokenMin s rest (if i < m then i else m)
 
-/-- `CstrTokenR`: `(first, theRest)`. -/
+/-- `if minIdx == 0 { first = nil } else { first = cstr[:minIdx] }` -/
+def tokenFirst (s : List Nat) (minIdx : Nat) : M (List Nat) :=
+  if minIdx = 0 then pure [] else slice s 0 minIdx
+
+/-- `if minIdx >= len(cstr)-1 { theRest = nil } else { theRest = cstr[minIdx+1:] }` — an `int` comparison:
+`len-1` is `-1` for the empty slice. -/
+def tokenRest (s : List Nat) (minIdx : Nat) : M (List Nat) :=
+  if Int.ofNat minIdx ≥ Int.ofNat s.length - 1 then pure [] else slice s (minIdx + 1) s.length
+
+/-- `CstrTokenR`: `(first, theRest)` (its first four lines are the body of `Cstrlen`). -/
 def cstrTokenR (s sep : List Nat) : M (List Nat × List Nat) := do
-  let m0 := match indexByte s 0 with | none => s.length | some i => i
-  let minIdx := tokenMin s sep m0
-  let first ← if minIdx = 0 then pure [] else slice s 0 minIdx
-  -- `minIdx >= len(cstr)-1` is an `int` comparison: `len-1` is `-1` for the empty slice
-  let rest ← if Int.ofNat minIdx ≥ Int.ofNat s.length - 1 then pure [] else slice s (minIdx + 1) s.length
+  let minIdx := tokenMin s sep (cstrlen s)
+  let first ← tokenFirst s minIdx
+  let rest ← tokenRest s minIdx
   pure (first, rest)
 
 /-! ### the C side: what the property compares with (specifications) -/
